@@ -58,10 +58,11 @@ def readD (n : Nat) : Nat := cmdD + n * DEFAULT_READ_RETRIES + cmdD
 /-- total payload of the blocks handed to `write` (`512 * blocks.length` for real blocks) -/
 def payload (blocks : List Bytes) : Nat := (blocks.map List.length).sum
 /-- bytes of `write`: three commands (CMD55, ACMD23, CMD25 — the single-block path needs two), the
-busy waits after ACMD23, before the stop token and after it, the stop token, and per block a busy
+busy waits after ACMD23, before the stop token and after it, the stop token, the byte clocked and
+discarded after it (N_BR), and per block a busy
 wait, token, CRC, data response and the payload -/
 def writeB (blocks : List Bytes) : Nat :=
-  cmdB + cmdB + cmdB + (DEFAULT_WRITE_RETRIES + 1) + (DEFAULT_WRITE_RETRIES + 1) + 1 + (DEFAULT_WRITE_RETRIES + 1)
+  cmdB + cmdB + cmdB + (DEFAULT_WRITE_RETRIES + 1) + (DEFAULT_WRITE_RETRIES + 1) + 1 + 1 + (DEFAULT_WRITE_RETRIES + 1)
     + blocks.length * ((DEFAULT_WRITE_RETRIES + 1) + 4) + payload blocks
 def writeD (blocks : List Bytes) : Nat :=
   cmdD + cmdD + cmdD + DEFAULT_WRITE_RETRIES + DEFAULT_WRITE_RETRIES + DEFAULT_WRITE_RETRIES
@@ -288,8 +289,15 @@ theorem spi_error_is_transport_acquireBody : SpiStrict (acquireBody (recBus B)) 
   Lemmas.Sd.acquireBody_spi B
 theorem spi_error_is_transport_read1 (idx : Nat) : SpiStrict (Sd.read (recBus B) 1 idx) :=
   Lemmas.Sd.read1_spi B idx
-theorem spi_error_is_transport_write (blocks : List Bytes) (idx : Nat) : SpiStrict (write (recBus B) blocks idx) :=
-  Lemmas.Sd.write_spi B blocks idx
+/-- (single-block write; for a multiple-block write see `spi_error_is_error` — its block loop's own
+error wins over an SPI error in the stop sequence that is always attempted) -/
+theorem spi_error_is_transport_write1 (b : Bytes) (idx : Nat) : SpiStrict (write (recBus B) [b] idx) :=
+  Lemmas.Sd.write1_spi B b idx
+/-- Any `write` reports an SPI error as an error. -/
+theorem spi_error_is_error_write (blocks : List Bytes) (idx : Nat) (s : St (σ × Transcript))
+    (h : spiFailures s.bus.2 < spiFailures (write (recBus B) blocks idx s).2.bus.2) :
+    ∃ e, (write (recBus B) blocks idx s).1 = .err e :=
+  (Lemmas.Sd.write_spiWeak B blocks idx s).2 h
 theorem spi_error_is_transport_readCsd : SpiStrict (readCsd (recBus B)) := Lemmas.Sd.readCsd_spi B
 
 /-- `acquire`: `Transport`, unless the closure of `acquire` had already failed with its own
@@ -305,17 +313,24 @@ def isMultiRead : Call → Bool
   | .read n _ => n != 1
   | _ => false
 
+def isMultiWrite : Call → Bool
+  | .write blocks _ => blocks.length != 1
+  | _ => false
+
 /-- `_partial`: the exact error code of a *call*.  On an initialised card every call except
-`get_card_type` and multi-block reads reports an SPI error as `Transport`.  Not covered, because
-false: (1) a call on an uninitialised card whose `acquire` closure failed on its own and whose
-trailing byte then hit an SPI error returns the closure's error (`spi_error_in_acquire`);
-(2) a multi-block read whose block loop failed (say with `CrcError`) and whose CMD12 then hit an
-SPI error returns the loop's error.  Both still return an error (`spi_error_is_error`). -/
+`get_card_type` and multi-block reads and writes reports an SPI error as `Transport`.  Not
+covered, because false: (1) a call on an uninitialised card whose `acquire` closure failed on its
+own and whose trailing byte then hit an SPI error returns the closure's error
+(`spi_error_in_acquire`); (2) a multi-block read whose block loop failed (say with `CrcError`) and
+whose CMD12 then hit an SPI error returns the loop's error; (3) likewise a multi-block write whose
+block loop failed (say with `WriteError`) and whose stop sequence — attempted either way, so that
+the card is not left waiting for data blocks — then hit an SPI error returns the loop's error.
+All still return an error (`spi_error_is_error`). -/
 theorem spi_error_is_transport_partial (c : Call) (s : St (σ × Transcript)) (hi : s.cardType.isSome)
-    (hc : c ≠ .cardType) (hm : isMultiRead c = false)
+    (hc : c ≠ .cardType) (hm : isMultiRead c = false) (hw : isMultiWrite c = false)
     (h : spiFailures s.bus.2 < spiFailures (call (recBus B) c s).2.bus.2) :
     (call (recBus B) c s).1 = .err .Transport :=
-  Lemmas.Sd.call_spi_transport_partial B c s hi hc hm h
+  Lemmas.Sd.call_spi_transport_partial B c s hi hc hm hw h
 
 /-- `get_card_type` has no error channel (`check_init().ok()?`): it always answers — with the
 card type when `check_init` succeeded, with "none" when it failed for whatever reason. -/
